@@ -112,6 +112,8 @@ def finite(*arrs):
     return all(np.all(np.isfinite(np.asarray(a, dtype=float))) for a in arrs)
 
 # ------------------------------------------------------------------ spying on scipy.integrate
+PROBE = 0.7311
+
 class QuadSpy:
     """records every quad / dblquad call made while active (delegating to the real functions)"""
     def __init__(self):
@@ -121,7 +123,12 @@ class QuadSpy:
         self.si = si; self.q = si.quad; self.d = si.dblquad
         def quad(func, a, b, *pa, **kw):
             r = self.q(func, a, b, *pa, **kw)
-            self.calls.append(dict(kind='quad', func=func, a=a, b=b, args=kw.get('args', pa[0] if pa else ()), res=r[0]))
+            args = kw.get('args', pa[0] if pa else ())
+            probe = None
+            if isinstance(args, tuple) and len(args) == 0:
+                try: probe = float(np.squeeze(func(PROBE)))      # closures over loop variables must be read now
+                except Exception: probe = None
+            self.calls.append(dict(kind='quad', func=func, a=a, b=b, args=args, res=r[0], probe=probe))
             return r
         def dblquad(func, a, b, gfun, hfun, *pa, **kw):
             r = self.d(func, a, b, gfun, hfun, *pa, **kw)
@@ -160,7 +167,7 @@ def classify_2d(calls, neg_gammas, sel_dist, params):
     wv = {k: np.zeros(n) for k in (('D', 'I'), ('N', 'I'), ('I', 'D'), ('I', 'N'))}
     C = {}
     cur = None
-    t = 0.7311
+    t = PROBE
     for c in calls:
         if c['kind'] == 'quad':
             r = region_of(c['a'], c['b'], neg_gammas)
@@ -176,7 +183,7 @@ def classify_2d(calls, neg_gammas, sel_dist, params):
             else:
                 if cur is None:
                     return 'marginal integral before any grid point'
-                v = float(c['func'](t))
+                v = c.get('probe')
                 a2 = float(np.squeeze(sel_dist(gam[cur], t, params))); a1 = float(np.squeeze(sel_dist(t, gam[cur], params)))
                 if v == a2:
                     wv[('I', r)][cur] = c['res']
@@ -658,7 +665,7 @@ def k_build(chk, drv, dadi, rng, dim, cpus, split=1, job=0, fault=None, n=None, 
                 raised = type(e).__name__
     finally:
         FAULT['at'] = None
-    inp['schedule'] = [list(map(float, x[:-dim] if False else x[:dim])) for x in (f.order or [])]
+    inp['schedule'] = [[int(v) for v in x[:dim]] for x in (f.order or [])]
     items = []
     for r in (f.results or []):
         if isinstance(r, BaseException): items.append('!')
@@ -717,3 +724,854 @@ def k_merge(chk, drv, dadi, caches, desc):
         chk.k_bad('merge', inp, 'raised ' + raised, out[:200], float('inf')); return
     if tables_equal(table_of(m, 2), parse_table(out[3:])) and isinstance(m.spectra, np.ndarray): chk.k_ok('merge:ok')
     else: chk.k_bad('merge', inp, 'merged table differs', out[:200], float('inf'))
+
+# ================================================================== L3: the property itself, on the real code
+FUNCS = {'demo1': demo1, 'demo2': demo2, 'demo1_1pop': demo1_1pop, 'neutral1': neutral1, 'neutral2': neutral2}
+_CACHE = {}
+
+def spec_cache(kind, func, p0, ns, bounds, n, extra):
+    return dict(kind=kind, func=func, p0=p0, ns=list(ns), bounds=[float(bounds[0]), float(bounds[1])], n=int(n), extra=[float(x) for x in extra])
+
+def build_cache(dadi, sp, fresh=False):
+    key = (id(dadi), sp['kind'], sp['func'], sp['p0'], tuple(sp['ns']), tuple(sp['bounds']), sp['n'], tuple(sp['extra']))
+    if not fresh and key in _CACHE:
+        return _CACHE[key]
+    cls = dadi.DFE.Cache1D if sp['kind'] == '1d' else dadi.DFE.Cache2D
+    c = cls([sp['p0']], list(sp['ns']), FUNCS[sp['func']], [8], gamma_bounds=tuple(sp['bounds']), gamma_pts=sp['n'],
+            additional_gammas=list(sp['extra']), cpus=1)
+    if not fresh:
+        _CACHE[key] = c
+    return c
+
+def pdf_by_name(dadi, name):
+    return getattr(dadi.DFE.PDFs, name)
+
+def my_trapz(y, x):
+    """explicit trapezoid rule over the first axis"""
+    y = np.asarray(y, dtype=float)
+    tot = np.zeros(y.shape[1:]) if y.ndim > 1 else 0.0
+    for i in range(len(x) - 1):
+        tot = tot + (x[i + 1] - x[i]) * (y[i + 1] + y[i]) / 2.0
+    return tot
+
+def masses_1d(name, params, lo, hi):
+    """P(lo < X < hi) from the distribution functions (independent of scipy.integrate)"""
+    import scipy.stats.distributions as ssd
+    if name == 'exponential': d = ssd.expon(scale=params[0])
+    elif name == 'gamma': d = ssd.gamma(params[0], scale=params[1])
+    elif name == 'lognormal': d = ssd.lognorm(params[1], scale=np.exp(params[0]))
+    elif name == 'beta': d = ssd.beta(params[0], params[1])
+    else: raise KeyError(name)
+    return float(d.cdf(hi) - d.cdf(lo)) if np.isfinite(hi) else float(d.sf(lo))
+
+def relerr(a, b):
+    a = np.asarray(a, dtype=float); b = np.asarray(b, dtype=float)
+    if a.shape != b.shape or not np.all(np.isfinite(a)): return float('inf')
+    s = float(np.max(np.abs(b))) or 1.0
+    return float(np.max(np.abs(a - b))) / s
+
+QTOL1 = 2e-5      # 1-D quad (default tolerances) vs distribution functions
+QTOL2 = 4e-3      # 2-D: the code asks quad/dblquad for epsabs=1e-4, epsrel=1e-3
+
+def o_int1d(chk, dadi, inp):
+    c = build_cache(dadi, inp['cache']); sel = pdf_by_name(dadi, inp['pdf']); params = inp['params']; theta = inp['theta']; ext = inp['exterior_int']
+    ng = np.asarray(c.neg_gammas, dtype=float); n = len(ng)
+    S = np.asarray(c.spectra, dtype=float)[:n]
+    w = np.asarray(sel(-ng, params), dtype=float)
+    try:
+        got = data_of(c.integrate(params, None, sel, theta, None, exterior_int=ext))
+    except Exception as e:
+        chk.fail('Cache1D.integrate:raises:%s' % type(e).__name__, 'Cache1D.integrate raised %s: %s' % (type(e).__name__, e), inp); return
+    exp = my_trapz([w[i] * S[i] for i in range(n)], ng)
+    wN = masses_1d(inp['pdf'], params, 0.0, -ng[-1]); wD = masses_1d(inp['pdf'], params, -ng[0], np.inf)
+    if ext:
+        exp = exp + wN * np.asarray(c.neu_spec, dtype=float) + wD * S[0]
+    exp = theta * exp
+    chk.l3(('int1d', inp['pdf'], ext, n))
+    chk.stat('int1d:%s' % inp['pdf'])
+    e = relerr(got, exp)
+    if e > QTOL1:
+        which = ''
+        if ext and relerr(got, exp - theta * wN * np.asarray(c.neu_spec, dtype=float)) <= QTOL1: which = ':neutral-tail-missing'
+        elif ext and relerr(got, exp - theta * wD * S[0]) <= QTOL1: which = ':lethal-tail-missing'
+        chk.fail('Cache1D.integrate:quadrature' + which, 'Cache1D.integrate differs from theta*(trapz(pdf*spectra) + tails): rel err %.3g' % e,
+                 dict(inp, got=small(got), expected=small(exp)))
+    # linear in theta
+    g1 = data_of(c.integrate(params, None, sel, 1.0, None, exterior_int=ext))
+    if relerr(got, theta * g1) > 1e-12:
+        chk.fail('Cache1D.integrate:theta-linear', 'integrate(theta) != theta*integrate(1)', dict(inp, got=small(got), expected=small(theta * g1)))
+
+def o_nosel1d(chk, dadi, inp):
+    c = build_cache(dadi, inp['cache']); sel = pdf_by_name(dadi, inp['pdf']); params = inp['params']; theta = inp['theta']
+    ng = np.asarray(c.neg_gammas, dtype=float)
+    S0 = data_of(neutral1([inp['cache']['p0']], inp['cache']['ns'], None))
+    got = data_of(c.integrate(params, None, sel, theta, None))
+    W = my_trapz(np.asarray(sel(-ng, params), dtype=float), ng) + masses_1d(inp['pdf'], params, 0.0, -ng[-1]) + masses_1d(inp['pdf'], params, -ng[0], np.inf)
+    chk.l3(('nosel1d', inp['pdf'], len(ng)))
+    e = relerr(got, theta * W * S0)
+    if e > QTOL1:
+        chk.fail('Cache1D.integrate:no-selection', 'with selection-neutral spectra the result is not theta*S0*(total weight): rel err %.3g' % e,
+                 dict(inp, got=small(got), expected=small(theta * W * S0), total_weight=W))
+    if inp.get('fine'):
+        chk.stat('nosel1d:|W-1|<=%g' % (0.001 if abs(W - 1) <= 0.001 else 0.01 if abs(W - 1) <= 0.01 else 0.05 if abs(W - 1) <= 0.05 else 1))
+        if abs(W - 1) > 0.05:
+            chk.fail('Cache1D.integrate:total-weight', 'total quadrature weight %.4f is not one up to quadrature error on a fine grid' % W, dict(inp, total_weight=W))
+
+def o_pp1(chk, dadi, inp):
+    c = build_cache(dadi, inp['cache'], fresh=True); sel = pdf_by_name(dadi, inp['pdf']); theta = inp['theta']
+    pdfp = inp['pdf_params']; pp = inp['point_masses']; demo = FUNCS[inp['demo']] if inp.get('demo') else None
+    params = list(pdfp) + [v for pr in pp for v in pr]
+    gs0 = [float(g) for g in c.gammas]
+    cont = data_of(c.integrate(pdfp, None, sel, theta, None))
+    exp = (1 - sum(p for p, _ in pp)) * cont
+    for p, g in pp:
+        if g in gs0: s = np.asarray(c.spectra, dtype=float)[gs0.index(g)]
+        elif demo is not None: s = data_of(demo(tuple(c.params) + (g,), c.ns, c.pts))
+        else: s = None
+        if s is None: exp = None; break
+        exp = exp + p * theta * s
+    chk.l3(('pp1', len(pp), exp is None, demo is not None, tuple(g in gs0 for _, g in pp)))
+    try:
+        got = data_of(c.integrate_point_pos(params, None, sel, theta, demo_sel_func=demo, Npos=len(pp)))
+    except IndexError:
+        if exp is not None:
+            chk.fail('Cache1D.integrate_point_pos:raises:IndexError', 'IndexError although every gamma is cached or computable', inp)
+        return
+    except Exception as e:
+        chk.fail('Cache1D.integrate_point_pos:raises:%s' % type(e).__name__, '%s: %s' % (type(e).__name__, e), inp); return
+    if exp is None:
+        chk.fail('Cache1D.integrate_point_pos:uncached-not-reported', 'an uncached gamma without demo_sel_func did not raise', inp); return
+    e = relerr(got, exp)
+    if e > 1e-9:
+        cached = [g for _, g in pp if g in gs0]
+        chk.fail('Cache1D.integrate_point_pos:theta' if cached and theta != 1 else 'Cache1D.integrate_point_pos:weights',
+                 'integrate_point_pos differs from (1-sum ppos)*integrate + sum ppos*theta*spectrum(gammapos): rel err %.3g '
+                 '(not linear in theta for a cached positive gamma)' % e, dict(inp, got=small(got), expected=small(exp)))
+        return
+    # what was stored for gammas computed on the fly must be the spectrum itself; a second call with another theta must scale
+    for p, g in pp:
+        if g not in gs0 and demo is not None:
+            gs1 = [float(x) for x in c.gammas]
+            st = np.asarray(c.spectra, dtype=float)[gs1.index(g)]
+            want = data_of(demo(tuple(c.params) + (g,), c.ns, c.pts))
+            if relerr(st, want) > 1e-12:
+                chk.fail('Cache1D.integrate_point_pos:on-the-fly-stored-scaled',
+                         'the spectrum cached for a gamma computed on the fly is multiplied by the theta of that call (ratio %.6g)' % float(np.mean(st / want)),
+                         dict(inp, stored=small(st), expected=small(want)))
+                return
+    th2 = inp.get('theta2')
+    if th2 is not None:
+        got2 = data_of(c.integrate_point_pos(params, None, sel, th2, demo_sel_func=demo, Npos=len(pp)))
+        if relerr(got2, exp * (th2 / theta)) > 1e-9:
+            chk.fail('Cache1D.integrate_point_pos:theta', 'second call with theta=%g is not theta2/theta1 times the first' % th2,
+                     dict(inp, got=small(got2), expected=small(exp * (th2 / theta))))
+
+# ------------------------------------------------------------------ 2-D region masses from distribution functions
+def _norm_cdf(z):
+    from scipy.special import ndtr
+    return ndtr(z)
+
+def biv_params5(name, params):
+    if name == 'biv_lognormal':
+        if len(params) == 3: mu, s, r = params; return mu, mu, s, s, r
+        return tuple(params)
+    if len(params) in (2, 3): return params[0], params[0], params[1], params[1]
+    return tuple(params[:4])
+
+def edge_mass(name, params, which, lo, hi, g):
+    """∫_{lo}^{hi} pdf(x, g) dx (which = 1: first argument integrated) or ∫ pdf(g, y) dy (which = 2)"""
+    import scipy.stats.distributions as ssd
+    if name == 'biv_lognormal':
+        m1, m2, s1, s2, r = biv_params5(name, params)
+        if which == 2: m1, m2, s1, s2 = m2, m1, s2, s1          # integrate the other coordinate
+        ly = math.log(g)
+        fy = float(ssd.lognorm.pdf(g, s2, scale=math.exp(m2)))
+        cm = m1 + r * s1 / s2 * (ly - m2); cs = s1 * math.sqrt(1 - r * r)
+        a = _norm_cdf((math.log(lo) - cm) / cs) if lo > 0 else 0.0
+        b = _norm_cdf((math.log(hi) - cm) / cs) if np.isfinite(hi) else 1.0
+        return fy * float(b - a)
+    a1, a2, b1, b2 = biv_params5(name, params)
+    if which == 2: a1, a2, b1, b2 = a2, a1, b2, b1
+    fy = float(ssd.gamma.pdf(g, a2, scale=b2))
+    d = ssd.gamma(a1, scale=b1)
+    return fy * (float(d.cdf(hi) - d.cdf(lo)) if np.isfinite(hi) else float(d.sf(lo)))
+
+def corner_mass(name, params, r1, r2):
+    """P(X in r1, Y in r2), r = (lo, hi)"""
+    import scipy.stats.distributions as ssd
+    if name == 'biv_ind_gamma':
+        a1, a2, b1, b2 = biv_params5(name, params)
+        def m(a, b, r):
+            d = ssd.gamma(a, scale=b)
+            return float(d.cdf(r[1]) - d.cdf(r[0])) if np.isfinite(r[1]) else float(d.sf(r[0]))
+        return m(a1, b1, r1) * m(a2, b2, r2)
+    from scipy.stats import multivariate_normal
+    m1, m2, s1, s2, r = biv_params5(name, params)
+    def z(v, m, s):
+        return -40.0 if v <= 0 else (40.0 if not np.isfinite(v) else max(-40.0, min(40.0, (math.log(v) - m) / s)))
+    mvn = multivariate_normal(mean=[0, 0], cov=[[1, r], [r, 1]])
+    def F(a, b):
+        if a <= -40 or b <= -40: return 0.0
+        return float(mvn.cdf([a, b]))
+    x0, x1, y0, y1 = z(r1[0], m1, s1), z(r1[1], m1, s1), z(r2[0], m2, s2), z(r2[1], m2, s2)
+    return F(x1, y1) - F(x0, y1) - F(x1, y0) + F(x0, y0)
+
+def region_masses(name, params, ng, sel=None):
+    """masses of the eight exterior regions: edges as vectors over the grid, corners as numbers.
+    sel=None: from distribution functions; else with scipy quad/dblquad called as the documentation of the method says
+    (epsabs=1e-4, epsrel=1e-3), general (non-symmetric) path."""
+    import scipy.integrate as si
+    n = len(ng); gam = -ng
+    N = (0.0, gam[-1]); D = (gam[0], np.inf)
+    out = {}
+    p = np.array(params)
+    for key, which, R in (('edge(I,D)', 2, D), ('edge(I,N)', 2, N), ('edge(D,I)', 1, D), ('edge(N,I)', 1, N)):
+        if sel is None:
+            out[key] = np.array([edge_mass(name, params, which, R[0], R[1], gam[k]) for k in range(n)])
+        elif which == 1:
+            out[key] = np.array([si.quad(sel, R[0], R[1], epsabs=1e-4, epsrel=1e-3, args=(gam[k], p))[0] for k in range(n)])
+        else:
+            out[key] = np.array([si.quad(lambda y, g=gam[k]: sel(g, y, p), R[0], R[1], epsabs=1e-4, epsrel=1e-3)[0] for k in range(n)])
+    for key, R1, R2 in (('corner(N,N)', N, N), ('corner(D,N)', D, N), ('corner(N,D)', N, D), ('corner(D,D)', D, D)):
+        if sel is None:
+            out[key] = corner_mass(name, params, R1, R2)
+        else:   # dblquad(f, a, b, g, h): f(y, x), x in (a, b) outer, y in (g, h) inner; sel(first, second): first = inner
+            out[key] = si.dblquad(sel, R2[0], R2[1], lambda _: R1[0], lambda _: R1[1], epsrel=1e-3, epsabs=1e-4, args=[p])[0]
+    return out
+
+def nine_regions(ng, S, w, M):
+    """the documented quadrature written out: interior + 4 edges + 4 corners; returns (total, dict of contributions)"""
+    n = len(ng)
+    parts = {}
+    parts['interior'] = my_trapz([my_trapz([w[i, j] * S[i, j] for i in range(n)], ng) for j in range(n)], ng)
+    parts['edge(I,D)'] = my_trapz([S[k, 0] * M['edge(I,D)'][k] for k in range(n)], ng)
+    parts['edge(I,N)'] = my_trapz([S[k, n - 1] * M['edge(I,N)'][k] for k in range(n)], ng)
+    parts['edge(D,I)'] = my_trapz([S[0, k] * M['edge(D,I)'][k] for k in range(n)], ng)
+    parts['edge(N,I)'] = my_trapz([S[n - 1, k] * M['edge(N,I)'][k] for k in range(n)], ng)
+    parts['corner(N,N)'] = S[n - 1, n - 1] * M['corner(N,N)']
+    parts['corner(D,N)'] = S[0, n - 1] * M['corner(D,N)']
+    parts['corner(N,D)'] = S[n - 1, 0] * M['corner(N,D)']
+    parts['corner(D,D)'] = S[0, 0] * M['corner(D,D)']
+    return sum(parts.values()), parts
+
+def well_conditioned(chk, name, params, ng, sel, what):
+    """The documented integrator (scipy quad/dblquad at the requested accuracy) must itself be accurate on this case,
+    otherwise nothing can be asserted about "the tail masses": such cases are counted and skipped."""
+    Mc = region_masses(name, params, ng)
+    Mq = region_masses(name, params, ng, sel)
+    ones = np.ones((len(ng), len(ng)))
+    z = np.zeros((len(ng), len(ng)))
+    a, pa = nine_regions(ng, ones, z, Mc); b, pb = nine_regions(ng, ones, z, Mq)
+    bad = max(abs(pa[k] - pb[k]) for k in pa)
+    if not np.isfinite(bad) or bad > 1e-3:
+        chk.stat('%s:skipped(scipy quad off by %s)' % (what, '>1e-2' if bad > 1e-2 else '>1e-3'))
+        return None
+    chk.stat('%s:well-conditioned' % what)
+    return Mc
+
+def o_int2d(chk, dadi, inp):
+    c = build_cache(dadi, inp['cache']); sel = pdf_by_name(dadi, inp['pdf']); params = inp['params']; theta = inp['theta']; ext = inp['exterior_int']
+    ng = np.asarray(c.neg_gammas, dtype=float); n = len(ng)
+    S = np.asarray(c.spectra, dtype=float)[:n, :n]
+    w = np.asarray(sel(-ng, -ng, np.array(params)), dtype=float).reshape(n, n)
+    try:
+        got = data_of(c.integrate(params, None, sel, theta, None, exterior_int=ext))
+    except Exception as e:
+        chk.fail('Cache2D.integrate:raises:%s' % type(e).__name__, '%s: %s' % (type(e).__name__, e), inp); return
+    M = well_conditioned(chk, inp['pdf'], params, ng, sel, 'int2d') if ext else region_masses(inp['pdf'], params, ng)
+    if M is None:
+        return
+    tot, parts = nine_regions(ng, S, w, M)
+    exp = theta * (tot if ext else parts['interior'])
+    chk.l3(('int2d', inp['pdf'], len(params), ext, n))
+    chk.stat('int2d:%s' % inp['pdf'])
+    tol = QTOL2 if ext else 1e-9
+    e = relerr(got, exp)
+    if e > tol:
+        key = 'Cache2D.integrate:quadrature'
+        for nm, v in parts.items():
+            if ext and nm != 'interior' and relerr(got, exp - theta * v) <= tol:
+                key += ':%s-missing' % nm
+                break
+        chk.fail(key, 'Cache2D.integrate differs from theta*(interior double trapezoid + 4 edges + 4 corners): rel err %.3g' % e,
+                 dict(inp, got=small(got), expected=small(exp), contributions={k: small(v, 2) for k, v in parts.items()}))
+    g1 = data_of(c.integrate(params, None, sel, 1.0, None, exterior_int=ext))
+    if relerr(got, theta * g1) > 1e-12:
+        chk.fail('Cache2D.integrate:theta-linear', 'integrate(theta) != theta*integrate(1)', dict(inp, got=small(got), expected=small(theta * g1)))
+
+def o_nosel2d(chk, dadi, inp):
+    c = build_cache(dadi, inp['cache']); sel = pdf_by_name(dadi, inp['pdf']); params = inp['params']; theta = inp['theta']
+    ng = np.asarray(c.neg_gammas, dtype=float); n = len(ng)
+    S0 = data_of(neutral2([inp['cache']['p0']], inp['cache']['ns'], None))
+    got = data_of(c.integrate(params, None, sel, theta, None))
+    w = np.asarray(sel(-ng, -ng, np.array(params)), dtype=float).reshape(n, n)
+    M = well_conditioned(chk, inp['pdf'], params, ng, sel, 'nosel2d')
+    if M is None:
+        return
+    W, parts = nine_regions(ng, np.ones((n, n)), w, M)
+    Wimpl = float(np.mean(got / (theta * S0)))
+    chk.l3(('nosel2d', inp['pdf'], len(params), n, round(parts['corner(D,D)'], 1)))
+    chk.stat('nosel2d:lethal-corner-mass>%g' % (0.1 if parts['corner(D,D)'] > 0.1 else 0.01 if parts['corner(D,D)'] > 0.01 else 0))
+    e = relerr(got, theta * W * S0)
+    if e > QTOL2:
+        key = 'Cache2D.integrate:no-selection'
+        if abs(Wimpl + parts['corner(D,D)'] - W) <= QTOL2 * max(W, 1): key += ':(lethal,lethal)-corner-missing'
+        chk.fail(key, 'with selection-neutral spectra the result is theta*S0*%.4f, the total weight of the nine regions is %.4f '
+                 '(mass beyond the grid in both coordinates: %.4f)' % (Wimpl, W, parts['corner(D,D)']),
+                 dict(inp, got=small(got), expected=small(theta * W * S0), total_weight_impl=Wimpl, total_weight=W, contributions=parts))
+    if inp.get('fine'):
+        chk.stat('nosel2d:|W-1|<=%g' % (0.01 if abs(W - 1) <= 0.01 else 0.05 if abs(W - 1) <= 0.05 else 1))
+        if abs(W - 1) > 0.05:
+            chk.fail('Cache2D.integrate:total-weight', 'total quadrature weight %.4f is not one up to quadrature error on the default grid' % W, dict(inp, total_weight=W))
+
+def quadrant_weights(p1, p2, rho):
+    """docstring of Cache2D.integrate_point_pos"""
+    s = math.sqrt(p1 * p2)
+    return (p1 * p2 + rho * (s - p1 * p2), (1 - rho) * p1 * (1 - p2), (1 - rho) * (1 - p1) * p2,
+            (1 - p1) * (1 - p2) + rho * (1 - s - (1 - p1) * (1 - p2)))
+
+def expected_pp2(c, sel, biv, p1, g1, p2, g2, rho, theta):
+    ng = np.asarray(c.neg_gammas, dtype=float); n = len(ng)
+    gs = [float(g) for g in c.gammas]
+    if g1 not in gs or g2 not in gs:
+        return None
+    i1, i2 = gs.index(g1), gs.index(g2)
+    sp = np.asarray(c.spectra, dtype=float)
+    w = np.asarray(sel(-ng, -ng, np.array(biv)), dtype=float).reshape(n, n)
+    marg2 = [my_trapz(w[:, j], ng) for j in range(n)]        # pdf of gamma2, gamma1 integrated out
+    marg1 = [my_trapz(w[i, :], ng) for i in range(n)]
+    pos_neg = my_trapz([marg2[j] * sp[i1, j] for j in range(n)], ng)
+    neg_pos = my_trapz([marg1[i] * sp[i, i2] for i in range(n)], ng)
+    neg_neg = data_of(c.integrate(biv, None, sel, 1.0, None))
+    a, b, cc, d = quadrant_weights(p1, p2, rho)
+    return theta * (a * sp[i1, i2] + b * pos_neg + cc * neg_pos + d * neg_neg)
+
+def o_pp2(chk, dadi, inp):
+    c = build_cache(dadi, inp['cache']); sel = pdf_by_name(dadi, inp['pdf']); theta = inp['theta']
+    biv = inp['biv_params']; p1, g1, p2, g2 = inp['point']; rho = inp['rho']
+    exp = expected_pp2(c, sel, biv, p1, g1, p2, g2, rho, theta)
+    chk.l3(('pp2', inp['pdf'], inp.get('symmetric', False), exp is None, rho == 0))
+    try:
+        if inp.get('symmetric'):
+            got = data_of(c.integrate_symmetric_point_pos(list(biv) + [p1, g1], None, sel, theta))
+        else:
+            got = data_of(c.integrate_point_pos(list(biv) + [p1, g1, p2, g2], None, sel, theta, rho=rho))
+    except IndexError:
+        if exp is not None: chk.fail('Cache2D.integrate_point_pos:raises:IndexError', 'IndexError although both gammas are cached', inp)
+        return
+    except Exception as e:
+        chk.fail('Cache2D.integrate_point_pos:raises:%s' % type(e).__name__, '%s: %s' % (type(e).__name__, e), inp); return
+    if exp is None:
+        chk.fail('Cache2D.integrate_point_pos:uncached-not-reported', 'a gamma that is not cached did not raise IndexError', inp); return
+    e = relerr(got, exp)
+    if e > 1e-9:
+        chk.fail('Cache2D.integrate%s_point_pos:weights' % ('_symmetric' if inp.get('symmetric') else ''),
+                 'differs from theta*(p++ S[g1,g2] + p+- marginal + p-+ marginal + p-- integrate(theta=1)): rel err %.3g' % e,
+                 dict(inp, got=small(got), expected=small(exp)))
+
+def o_mix(chk, dadi, inp):
+    """documented meaning of the parameter vector of the three mixtures"""
+    s1 = build_cache(dadi, inp['cache1']); s2 = build_cache(dadi, inp['cache2']); P = dadi.DFE.PDFs
+    sd1 = pdf_by_name(dadi, inp['pdf1']); sd2 = pdf_by_name(dadi, inp['pdf2'])
+    kind = inp['kind']; sh = inp['shared']; theta = inp['theta']; rho = inp['rho']; p2d = inp['p2d']
+    M = dadi.DFE.Cache2D_mod
+    try:
+        if kind == 'mix':
+            params = list(sh) + [rho, p2d]
+            exp = (1 - p2d) * data_of(s1.integrate(sh, None, sd1, theta, None)) + p2d * data_of(s2.integrate(list(sh) + [rho], None, sd2, theta, None))
+            call = lambda: M.mixture(params, None, s1, s2, sd1, sd2, theta, None)
+        elif kind == 'mixsym':
+            pp, g = inp['point'][:2]
+            params = list(sh) + [rho, pp, g, p2d]
+            exp = (1 - p2d) * data_of(s1.integrate_point_pos(list(sh) + [pp, g], None, sd1, theta)) + \
+                p2d * data_of(s2.integrate_symmetric_point_pos(list(sh) + [rho, pp, g], None, sd2, theta))
+            call = lambda: M.mixture_symmetric_point_pos(params, None, s1, s2, sd1, sd2, theta)
+        else:
+            p1, g1, p2, g2 = inp['point']
+            params = list(sh) + [rho, p1, g1, p2, g2, p2d]
+            exp = (1 - p2d) * data_of(s1.integrate_point_pos(list(sh) + [p1, g1], None, sd1, theta)) + \
+                p2d * data_of(s2.integrate_point_pos(list(sh) + [rho, p1, g1, p2, g2], None, sd2, theta, rho=rho))
+            call = lambda: M.mixture_point_pos(params, None, s1, s2, sd1, sd2, theta)
+    except Exception as e:
+        chk.notes.append('o_mix: component raised %r on %r' % (e, inp)); return
+    fname = MIX[kind][0]
+    chk.l3(('mix', kind, p2d in (0.0, 1.0), rho == 0))
+    try:
+        got = data_of(call())
+    except Exception as e:
+        chk.fail('%s:raises:%s' % (fname, type(e).__name__), 'DFE.%s raised %s: %s' % (fname, type(e).__name__, e), dict(inp, params=params)); return
+    e = relerr(got, exp)
+    if e > 1e-9:
+        chk.fail('%s:weights' % fname, 'DFE.%s differs from (1-p2d)*[1-D component] + p2d*[2-D component] with the documented parameter meaning: rel err %.3g%s'
+                 % (fname, e, ' (result is not finite)' if not np.all(np.isfinite(got)) else ''), dict(inp, params=params, got=small(got), expected=small(exp)))
+
+def o_vourlaki(chk, dadi, inp):
+    s1 = build_cache(dadi, inp['cache1']); s2 = build_cache(dadi, inp['cache2']); P = dadi.DFE.PDFs
+    alpha, beta, pw, gpos, pc, pcp = inp['params']; theta = inp['theta']
+    ng = np.asarray(s2.neg_gammas, dtype=float); n = len(ng); gs = [float(g) for g in s2.gammas]
+    chk.l3(('vourlaki', gpos in gs))
+    try:
+        got = data_of(dadi.DFE.Vourlaki_mixture(inp['params'], None, s1, s2, theta, None))
+    except IndexError:
+        if gpos in gs: chk.fail('Vourlaki_mixture:raises:IndexError', 'IndexError although gamma_pos is cached', inp)
+        return
+    except Exception as e:
+        chk.fail('Vourlaki_mixture:raises:%s' % type(e).__name__, '%s: %s' % (type(e).__name__, e), inp); return
+    if gpos not in gs:
+        chk.fail('Vourlaki_mixture:uncached-not-reported', 'gamma_pos is not cached but no IndexError', inp); return
+    ip = gs.index(gpos); sp = np.asarray(s2.spectra, dtype=float)
+    m5 = data_of(s1.integrate([alpha, beta], None, P.gamma, 1, None)); m6 = data_of(s2.integrate([alpha, beta], None, P.biv_ind_gamma, 1, None))
+    m2 = sp[ip, ip]
+    wg = np.asarray(P.gamma(-ng, [alpha, beta]), dtype=float)
+    wN = masses_1d('gamma', [alpha, beta], 0.0, -ng[-1]); wD = masses_1d('gamma', [alpha, beta], -ng[0], np.inf)
+    m4 = my_trapz([wg[k] * sp[ip, k] for k in range(n)], ng) + sp[ip, 0] * wD + sp[ip, n - 1] * wN      # pop1 positive, pop2 negative
+    m7 = my_trapz([wg[k] * sp[k, ip] for k in range(n)], ng) + sp[0, ip] * wD + sp[n - 1, ip] * wN
+    exp = theta * (m5 * (1 - pw) * (1 - pc) + m6 * (1 - pw) * pc * (1 - pcp) + m7 * (1 - pw) * pc * pcp
+                   + m2 * pw * (1 - pc) + m2 * pw * pc * pcp + m4 * pw * pc * (1 - pcp))
+    e = relerr(got, exp)
+    if e > QTOL1:
+        chk.fail('Vourlaki_mixture:weights', 'differs from the six-component mixture of the docstring: rel err %.3g' % e, dict(inp, got=small(got), expected=small(exp)))
+    g1 = data_of(dadi.DFE.Vourlaki_mixture(inp['params'], None, s1, s2, 1.0, None))
+    if relerr(got, theta * g1) > 1e-12:
+        chk.fail('Vourlaki_mixture:theta-linear', 'not linear in theta', inp)
+
+# ------------------------------------------------------------------ cache construction on real processes, split / merge, faults
+def grid(n, extra):
+    return np.concatenate((-np.logspace(np.log10(40.), np.log10(0.05), n), extra))
+
+def build_real(dadi, dim, n, extra, cpus, split=1, job=0, func=None):
+    with quiet():
+        if dim == 1:
+            return dadi.DFE.Cache1D([1.3], [1, 2], func or demo1, [8], gamma_bounds=(0.05, 40.), gamma_pts=n, additional_gammas=list(extra), cpus=cpus)
+        return dadi.DFE.Cache2D([1.3], [1, 2], func or demo2, [8], gamma_bounds=(0.05, 40.), gamma_pts=n, additional_gammas=list(extra), cpus=cpus,
+                                split_jobs=split, this_job_id=job)
+
+def o_procs(chk, dadi, inp):
+    """same spectra whether built by one process or many"""
+    dim, n, extra, cpus = inp['dim'], inp['n'], inp['extra'], inp['cpus']
+    ref = build_real(dadi, dim, n, extra, 1)
+    chk.l3(('procs', dim, cpus, n + len(extra)))
+    try:
+        c = build_real(dadi, dim, n, extra, cpus)
+    except Exception as e:
+        chk.fail('Cache%dD:multi-process:raises:%s' % (dim, type(e).__name__), 'construction with cpus=%d raised %s: %s' % (cpus, type(e).__name__, e), inp); return
+    a, b = np.asarray(ref.spectra, dtype=float), c.spectra
+    if not isinstance(b, np.ndarray) or b.shape != a.shape or not np.array_equal(a, np.asarray(b, dtype=float)):
+        chk.fail('Cache%dD:multi-process:differs' % dim, 'cache built with cpus=%d differs from the single-process cache' % cpus, inp)
+    if dim == 1 and not np.array_equal(np.asarray(ref.neu_spec), np.asarray(c.neu_spec)):
+        chk.fail('Cache1D:multi-process:neu_spec', 'neutral spectrum differs', inp)
+
+def o_fault(chk, dadi, inp):
+    """a worker raising on one gamma must make the construction fail (whatever the worker count / split)"""
+    dim, n, extra, cpus, at = inp['dim'], inp['n'], inp['extra'], inp['cpus'], inp['at']
+    split, job = inp.get('split', 1), inp.get('job', 0)
+    gam = grid(n, extra)
+    FAULT['at'] = (gam[at[0]], gam[at[1]]) if dim == 2 else (gam[at[0]], gam[at[0]]); FAULT['kind'] = 'raise'
+    G = len(gam)
+    owned = dim == 1 or ((at[0] * G + at[1]) % split == job)
+    chk.l3(('fault', dim, cpus, split, owned))
+    try:
+        try:
+            c = build_real(dadi, dim, n, extra, cpus, split, job)
+        finally:
+            FAULT['at'] = None
+    except BaseException as e:
+        if isinstance(e, (KeyboardInterrupt, SystemExit)): raise
+        if not owned:
+            chk.fail('Cache2D:split:foreign-failure', 'a job failed on a gamma pair that belongs to another job', inp)
+        return
+    if owned:
+        chk.fail('Cache%dD:worker-failure-absorbed' % dim, 'a demo function raising at gamma index %r did not make the construction fail (cpus=%d, split_jobs=%d)'
+                 % (at, cpus, split), inp)
+
+def o_split(chk, dadi, inp):
+    """split_jobs construction + merge == single job; job ids partition the table"""
+    n, extra, s, cpus, order = inp['n'], inp['extra'], inp['split'], inp['cpus'], inp['order']
+    ref = build_real(dadi, 2, n, extra, 1)
+    G = n + len(extra)
+    jobs = [build_real(dadi, 2, n, extra, cpus, s, j) for j in range(s)]
+    chk.l3(('split', s, cpus, G))
+    count = np.zeros((G, G), dtype=int)
+    for jc in jobs:
+        for i in range(G):
+            for j in range(G):
+                if jc.spectra[i][j] is not None: count[i, j] += 1
+    if not np.all(count == 1):
+        chk.fail('Cache2D:split:not-a-partition', 'with split_jobs=%d some (gamma1, gamma2) pair is computed by %s jobs' % (s, sorted(set(count.ravel().tolist()))), inp); return
+    try:
+        m = dadi.DFE.Cache2D.merge([jobs[j] for j in order])
+    except Exception as e:
+        chk.fail('Cache2D.merge:complete-set-refused', 'merging all %d jobs raised %s: %s' % (s, type(e).__name__, e), inp); return
+    if not isinstance(m.spectra, np.ndarray) or not np.array_equal(np.asarray(m.spectra, dtype=float), np.asarray(ref.spectra, dtype=float)):
+        chk.fail('Cache2D.merge:differs', 'split_jobs=%d + merge differs from the single-job cache' % s, inp)
+
+_JOBS4 = {}
+def o_subsets(chk, dadi, inp):
+    """4 jobs: a multiset of job ids (multiplicities 0/1/2, some order), optionally one duplicate tampered with"""
+    mult, order, tamper = inp['mult'], inp['order'], inp.get('tamper')
+    key = id(dadi)
+    if key not in _JOBS4:
+        _JOBS4[key] = ([build_real(dadi, 2, 2, [1.5], 1, 4, j) for j in range(4)], build_real(dadi, 2, 2, [1.5], 1))
+    jobs, ref = _JOBS4[key]
+    lst = []
+    for j in order:
+        lst.append(copy.deepcopy(jobs[j]))
+    if tamper is not None:
+        cc = lst[tamper]
+        done = False
+        for i in range(len(cc.spectra)):
+            for j in range(len(cc.spectra)):
+                if cc.spectra[i][j] is not None and not done:
+                    cc.spectra[i][j] = cc.spectra[i][j] * 1.0000001; done = True
+    complete = all(m >= 1 for m in mult)
+    conflict = tamper is not None
+    chk.l3(('subsets', tuple(mult), conflict))
+    chk.stat('subsets:%s' % ('conflict' if conflict else 'complete' if complete else 'missing'))
+    if not lst:
+        return
+    try:
+        m = dadi.DFE.Cache2D.merge(lst)
+    except ValueError as e:
+        if complete and not conflict:
+            chk.fail('Cache2D.merge:complete-set-refused', 'a complete set of jobs (duplicates identical) was refused: %s' % e, inp)
+        return
+    except Exception as e:
+        chk.fail('Cache2D.merge:raises:%s' % type(e).__name__, '%s: %s' % (type(e).__name__, e), inp); return
+    if conflict:
+        chk.fail('Cache2D.merge:conflict-absorbed', 'a duplicated job with different content was merged silently', inp)
+    elif not complete:
+        chk.fail('Cache2D.merge:missing-absorbed', 'jobs %r are missing but merge returned a cache' % [j for j in range(4) if mult[j] == 0], inp)
+    elif not np.array_equal(np.asarray(m.spectra, dtype=float), np.asarray(ref.spectra, dtype=float)):
+        chk.fail('Cache2D.merge:differs', 'merged cache differs from the single-job cache', inp)
+
+# ------------------------------------------------------------------ compiled bivariate pdfs vs their formulas
+def ref_biv_lognormal(xx, yy, params):
+    m1, m2, s1, s2, r = biv_params5('biv_lognormal', list(params))
+    out = np.empty((len(xx), len(yy)))
+    for i, x in enumerate(xx):
+        for j, y in enumerate(yy):
+            dx = (math.log(x) - m1) / s1; dy = (math.log(y) - m2) / s2
+            q = (dx * dx - 2 * r * dx * dy + dy * dy) / (1 - r * r)
+            out[i, j] = math.exp(-q / 2) / (2 * math.pi * s1 * s2 * math.sqrt(1 - r * r) * x * y)
+    return out
+
+def ref_biv_ind_gamma(xx, yy, params):
+    from scipy.special import gammaln
+    a1, a2, b1, b2 = biv_params5('biv_ind_gamma', list(params))
+    fx = [math.exp((a1 - 1) * math.log(x) - x / b1 - gammaln(a1) - a1 * math.log(b1)) for x in xx]
+    fy = [math.exp((a2 - 1) * math.log(y) - y / b2 - gammaln(a2) - a2 * math.log(b2)) for y in yy]
+    return np.outer(fx, fy)
+
+def o_pdf(chk, dadi, inp):
+    name, params, layout = inp['pdf'], inp['params'], inp['layout']
+    f = pdf_by_name(dadi, name)
+    base = np.array(inp['xx'], dtype=float); basey = np.array(inp['yy'], dtype=float)
+    if layout == 'contiguous': xx, yy = base.copy(), basey.copy()
+    elif layout == 'strided':
+        bx = np.empty(2 * len(base)); bx[::2] = base; bx[1::2] = -1.0; xx = bx[::2]
+        by = np.empty(3 * len(basey)); by[::3] = basey; by[1::3] = -1.0; by[2::3] = -2.0; yy = by[::3]
+    elif layout == 'reversed': xx, yy = base[::-1].copy()[::-1], basey[::-1].copy()[::-1]
+    elif layout == 'int': xx, yy = np.arange(1, 4), np.arange(2, 5); base, basey = xx.astype(float), yy.astype(float)
+    elif layout == 'list': xx, yy = base.tolist(), basey.tolist()
+    elif layout == 'scalar': xx, yy = float(base[0]), float(basey[0]); base, basey = base[:1], basey[:1]
+    else: raise KeyError(layout)
+    ref = (ref_biv_lognormal if name == 'biv_lognormal' else ref_biv_ind_gamma)(base, basey, params)
+    chk.l3(('pdf', name, len(params), layout))
+    chk.stat('pdf:%s:%s' % (name, layout))
+    try:
+        got = np.asarray(f(xx, yy, params), dtype=float)
+    except Exception as e:
+        chk.fail('PDFs.%s:raises:%s' % (name, type(e).__name__), '%s: %s' % (type(e).__name__, e), inp); return
+    got = got.reshape(ref.shape) if got.size == ref.size else got
+    tol = 1e-10 if name == 'biv_lognormal' else 1e-9
+    e = pdf_mismatch(got, ref)
+    if e > tol:
+        chk.fail('PDFs.%s:%s' % (name, 'strided-argument' if layout in ('strided', 'reversed') else 'formula'),
+                 'compiled %s differs from its formula (max rel err %.3g) for %s arguments' % (name, e, layout),
+                 dict(inp, got=small(got), expected=small(ref)))
+
+def pdf_mismatch(got, ref):
+    if got.shape != ref.shape or not np.all(np.isfinite(got)):
+        return float('inf')
+    m = ref > 1e-290
+    e = float(np.max(np.abs(got[m] - ref[m]) / ref[m])) if m.any() else 0.0
+    if (~m).any() and float(np.max(np.abs(got[~m]))) > 1e-280:
+        e = float('inf')
+    return e
+
+ORACLES = dict(int1d=o_int1d, nosel1d=o_nosel1d, pp1=o_pp1, int2d=o_int2d, nosel2d=o_nosel2d, pp2=o_pp2, mix=o_mix, vourlaki=o_vourlaki,
+               procs=o_procs, fault=o_fault, split=o_split, subsets=o_subsets, pdf=o_pdf)
+
+def ensure_dfe(dadi):
+    import importlib
+    importlib.import_module(dadi.__name__ + '.DFE.Cache2D_mod')
+
+def oracle(chk, dadi, name, inp):
+    ensure_dfe(dadi)
+    inp = dict(inp, oracle=name)
+    n0 = len(chk.failures)
+    try:
+        ORACLES[name](chk, dadi, inp)
+    finally:
+        FAULT['at'] = None
+    if len(chk.failures) == n0:
+        chk.sample(dict(oracle=name, input={k: v for k, v in inp.items() if k not in ('oracle',)}, verdict='holds'), cap=8)
+
+# ================================================================== generators and the check itself
+def r3(x):
+    return round(float(x), 3)
+
+def rnd_theta(rng):
+    return float(rng.choice([1.0, 7.0, r3(10 ** rng.uniform(-1, 3))]))
+
+def pdf1_specs(rng):
+    return [('exponential', [r3(10 ** rng.uniform(-1, 2))]),
+            ('gamma', [r3(rng.uniform(0.3, 2.5)), r3(10 ** rng.uniform(-1, 2.5))]),
+            ('lognormal', [r3(rng.uniform(-2, 5)), r3(rng.uniform(0.3, 2.5))]),
+            ('beta', [r3(rng.uniform(1.0, 3)), r3(rng.uniform(1.0, 3))])]
+
+def pdf2_specs(rng):
+    rho = float(rng.choice([0.0, r3(rng.uniform(-0.95, 0.95)), 0.9, -0.7]))
+    return [('biv_lognormal', [r3(rng.uniform(-2, 5)), r3(rng.uniform(0.5, 2.5)), rho]),
+            ('biv_lognormal', [r3(rng.uniform(-2, 5)), r3(rng.uniform(-2, 5)), r3(rng.uniform(0.5, 2.5)), r3(rng.uniform(0.5, 2.5)), rho]),
+            ('biv_ind_gamma', [r3(rng.uniform(0.3, 2.5)), r3(10 ** rng.uniform(-1, 2.5))]),
+            ('biv_ind_gamma', [r3(rng.uniform(0.3, 2.5)), r3(rng.uniform(0.3, 2.5)), r3(10 ** rng.uniform(-1, 2.5)), r3(10 ** rng.uniform(-1, 2.5))]),
+            ('biv_ind_gamma', [r3(rng.uniform(0.3, 2.5)), r3(10 ** rng.uniform(-1, 2.5)), 0.3])]
+
+def rnd_spec(rng, kind, func, extra=None, n=None):
+    n = int(rng.integers(2, 6 if kind == '1d' else 5)) if n is None else n
+    ns = [int(rng.integers(1, 3)), int(rng.integers(1, 3))]
+    if func == 'demo1_1pop': ns = [int(rng.integers(1, 5))]
+    bounds = (r3(10 ** rng.uniform(-2, -0.5)), r3(10 ** rng.uniform(0.7, 2.2)))
+    extra = [r3(rng.uniform(0.5, 6)) for _ in range(int(rng.integers(0, 3)))] if extra is None else extra
+    return spec_cache(kind, func, r3(rng.uniform(0.5, 2.0)), ns, bounds, n, extra)
+
+def run(chk, ctx):
+    dadi = ctx['dadi']; drv = ctx['driver']; tier = ctx['tier']
+    rng = common.Rng(ctx['seed'], 'C17')
+    thorough = tier == 'thorough'
+    ensure_dfe(dadi)                   # mixture_point_pos is not exported by the package
+    chk.rule = ('Caches are built from cheap closed-form spectra that depend on both gammas differently (so swapped slices show), 2-6 negative gammas on '
+                'narrow ranges (so every exterior region carries mass) plus 0-2 positive gammas; pdfs: exponential/gamma/lognormal/beta and bivariate '
+                'lognormal (3 and 5 parameters, rho in (-1,1) incl. 0 and 0.9) / independent gamma (2-5 parameters); theta in {1, 7, random}; point masses '
+                'cached / computed on the fly / missing; mixtures with p2d in [0,1]; worker counts 1-4 (thorough: up to 16) on real processes and '
+                'hundreds of simulated completion orders; split_jobs 1-6; all 81 multiplicity patterns of 4 jobs, with and without a tampered duplicate; '
+                'a fault at every gamma position. Non-trivial = distinct (oracle, pdf, size, edge-case flags).')
+    chk.unproved = [
+        '"up to quadrature error": accuracy of scipy quad/dblquad and of the trapezoid rule (total weight = 1) is checked numerically only '
+        '(tail / region masses vs distribution functions, |W-1| on fine grids)',
+        'compiled bivariate pdfs (PDFs.c incl. the Lanczos gamma) equal their formulas: numerical comparison on log grids, rel 1e-10 / 1e-9',
+        'the univariate pdfs are scipy.stats calls (not modelled)',
+        'operating-system scheduling itself: the theorem covers every permutation of the results list; real pools are sampled, simulated orders are exhaustive in kind',
+        'numpy.trapz / boolean-mask indexing / np.squeeze are tied by correspondence (K), not translated',
+    ]
+    chk.assumptions += ['pdf values, quad/dblquad results and square roots enter the model as numbers taken from the implementation run (classified by their bounds)']
+    nK = 3 if not thorough else 10
+    # ------------------------------------------------------------ K
+    if drv is not None and drv.ok():
+        cfg = drv.ask('c17.cfg')
+        if not cfg.startswith('ok 1 1 1 1 1 1 1 1 '):
+            chk.notes.append('shape flags of the translation: ' + cfg)
+        for ci in range(nK):
+            func = ['demo1', 'demo1_1pop', 'demo1'][ci % 3]
+            sp = rnd_spec(rng, '1d', func)
+            c = build_cache(dadi, sp)
+            for name, params in pdf1_specs(rng):
+                sel = pdf_by_name(dadi, name)
+                for ext in (True, False):
+                    k_int1d(chk, drv, c, name, sel, params, rnd_theta(rng), ext)
+            # point masses (fresh cache each time: the call may extend it)
+            for rep in range(4 if not thorough else 8):
+                name, params = pdf1_specs(rng)[rep % 4]
+                sel = pdf_by_name(dadi, name)
+                cc = build_cache(dadi, sp, fresh=True)
+                npos = int(rng.integers(1, 4))
+                pool = list(sp['extra']) + [r3(rng.uniform(0.5, 9))]
+                pp = [(r3(rng.uniform(0.01, 0.3)), float(rng.choice(pool))) for _ in range(npos)]
+                demo = FUNCS[func] if rng.random() < 0.6 else None
+                k_pp1(chk, drv, dadi, cc, name, sel, params, pp, rnd_theta(rng), bool(rng.random() < 0.8), demo)
+                k_pp1(chk, drv, dadi, cc, name, sel, params, pp, rnd_theta(rng), True, demo, tag='pp1:again')
+        for ci in range(nK):
+            sp = rnd_spec(rng, '2d', 'demo2', extra=[r3(rng.uniform(0.5, 6)) for _ in range(int(rng.integers(1, 3)))])
+            c = build_cache(dadi, sp)
+            for name, params in pdf2_specs(rng):
+                sel = pdf_by_name(dadi, name)
+                k_int2d(chk, drv, c, name, sel, params, rnd_theta(rng), True)
+                k_int2d(chk, drv, c, name, sel, params, rnd_theta(rng), False)
+                ex = sp['extra']
+                g1 = float(rng.choice(ex)); g2 = float(rng.choice(ex + [7.77] if rng.random() < 0.15 else ex))
+                pt = (r3(rng.uniform(0, 0.4)), g1, r3(rng.uniform(0, 0.4)), g2)
+                rho = rng.choice([None, 0.0, r3(rng.uniform(-0.9, 0.9)), 1.0])
+                k_pp2(chk, drv, c, name, sel, params, pt, rnd_theta(rng), None if rho is None else float(rho), False)
+                if name == 'biv_lognormal':
+                    k_pp2(chk, drv, c, name, sel, params, pt, rnd_theta(rng), None, True)
+        for rep in range(12 if not thorough else 60):
+            shared = [r3(rng.uniform(-1, 3)) for _ in range(int(rng.integers(0, 4)))]
+            rho, p2d = r3(rng.uniform(-0.9, 0.9)), float(rng.choice([0.0, 1.0, r3(rng.uniform(0, 1))]))
+            k_mix(chk, drv, dadi, rng, 'mix', shared + [rho, p2d], rnd_theta(rng), bool(rng.random() < 0.7))
+            k_mix(chk, drv, dadi, rng, 'mixsym', shared + [rho, r3(rng.uniform(0, 0.5)), r3(rng.uniform(0.5, 5)), p2d], rnd_theta(rng))
+            k_mix(chk, drv, dadi, rng, 'mixpt', shared + [rho, r3(rng.uniform(0, 0.5)), r3(rng.uniform(0.5, 5)), r3(rng.uniform(0, 0.5)),
+                                                          r3(rng.uniform(0.5, 5)), p2d], rnd_theta(rng))
+            k_spp_glue(chk, drv, dadi, rng, shared + [rho, r3(rng.uniform(0, 0.5)), r3(rng.uniform(0.5, 5))], rnd_theta(rng))
+        for short in ([], [0.5], [0.1, 0.2, 0.3]):            # too few parameters
+            for kind in ('mix', 'mixsym', 'mixpt'):
+                k_mix(chk, drv, dadi, rng, kind, list(short), 1.0)
+        for rep in range(4 if not thorough else 16):
+            gp = r3(rng.uniform(0.5, 6))
+            s1 = build_cache(dadi, rnd_spec(rng, '1d', 'demo1', extra=[]))
+            sp2 = rnd_spec(rng, '2d', 'demo2', extra=[gp]); sp2['ns'] = list(s1.ns)
+            s2 = build_cache(dadi, sp2)
+            params = [r3(rng.uniform(0.3, 2)), r3(10 ** rng.uniform(0, 2)), r3(rng.uniform(0, 0.3)), gp if rng.random() < 0.9 else 9.99,
+                      r3(rng.uniform(0, 1)), r3(rng.uniform(0, 1))]
+            k_vourlaki(chk, drv, dadi, s1, s2, params, rnd_theta(rng))
+        # construction under simulated schedules
+        for rep in range(25 if not thorough else 150):
+            dim = 1 + rep % 2
+            cpus = int(rng.integers(2, 5 if not thorough else 17))
+            split = 1 if dim == 1 or rng.random() < 0.5 else int(rng.integers(2, 7))
+            job = int(rng.integers(0, split))
+            n = int(rng.integers(1, 4)); extra = [2.5][:int(rng.integers(0, 2))]
+            G = n + len(extra)
+            fault = None
+            if rng.random() < 0.25:
+                fault = (int(rng.integers(0, G)), int(rng.integers(0, G)))
+            k_build(chk, drv, dadi, rng, dim, cpus, split, job, fault, n, extra)
+        built = {}
+        for split in range(1, 7):
+            for job in range(split):
+                for (gn, extra) in ([(2, [1.5])] if not thorough else [(2, [1.5]), (1, []), (3, [1.5, 2.5])]):
+                    built[(gn, tuple(extra), split, job)] = k_jobs_single(chk, drv, dadi, gn, extra, split, job)
+        out = drv.ask('c17.jobs 0 3 0 0')
+        if out == 'err ZeroDivisionError': chk.k_ok('jobs:split=0')
+        else: chk.k_bad('jobs:split=0', 'split_jobs=0', 'ZeroDivisionError', out, float('inf'))
+        for split in range(1, 7):
+            js = [built[(2, (1.5,), split, j)] for j in range(split)]
+            for rep in range(3 if not thorough else 10):
+                ids = [j for j in range(split) if rng.random() < 0.85] + [int(rng.integers(0, split)) for _ in range(int(rng.integers(0, 2)))]
+                ids = [ids[i] for i in rng.permutation(len(ids))] if ids else []
+                if not ids: continue
+                lst = [copy.deepcopy(js[j]) for j in ids]
+                desc = dict(split_jobs=split, order=ids)
+                if len(ids) != len(set(ids)) and rng.random() < 0.5:
+                    d = [i for i, j in enumerate(ids) if ids.index(j) != i][0]
+                    for i in range(3):
+                        for j in range(3):
+                            if lst[d].spectra[i][j] is not None:
+                                lst[d].spectra[i][j] = lst[d].spectra[i][j] + 1e-9
+                    desc['tampered'] = d
+                k_merge(chk, drv, dadi, lst, desc)
+    # ------------------------------------------------------------ L3
+    nL = 4 if not thorough else 16
+    for ci in range(nL):
+        sp = rnd_spec(rng, '1d', ['demo1', 'demo1_1pop'][ci % 2])
+        for name, params in pdf1_specs(rng):
+            for ext in (True, False):
+                oracle(chk, dadi, 'int1d', dict(cache=sp, pdf=name, params=params, theta=rnd_theta(rng), exterior_int=ext))
+        spn = spec_cache('1d', 'neutral1', sp['p0'], [1, 2], sp['bounds'], sp['n'], [])
+        for name, params in pdf1_specs(rng):
+            oracle(chk, dadi, 'nosel1d', dict(cache=spn, pdf=name, params=params, theta=rnd_theta(rng)))
+        # point masses: cached, on the fly, missing; theta = 1 and != 1
+        pool = list(sp['extra'])
+        func = sp['func']
+        for rep in range(3 if not thorough else 6):
+            name, params = pdf1_specs(rng)[int(rng.integers(0, 4))]
+            npos = int(rng.integers(1, 4))
+            cand = pool + [r3(rng.uniform(0.5, 9))]
+            pp = [[r3(rng.uniform(0.01, 0.3)), float(rng.choice(cand))] for _ in range(npos)]
+            oracle(chk, dadi, 'pp1', dict(cache=sp, pdf=name, pdf_params=params, point_masses=pp, theta=float(rng.choice([1.0, 7.0, r3(10 ** rng.uniform(0, 3))])),
+                                          theta2=r3(10 ** rng.uniform(0, 2)), demo=(func if rng.random() < 0.7 else None)))
+    # the documented headline case: one cached positive gamma, theta = 7
+    spc = spec_cache('1d', 'demo1', 1.0, [2, 2], (0.01, 50.0), 5, [2.0])
+    oracle(chk, dadi, 'pp1', dict(cache=spc, pdf='gamma', pdf_params=[1.0, 2.0], point_masses=[[0.3, 2.0]], theta=7.0, theta2=3.0, demo=None))
+    oracle(chk, dadi, 'pp1', dict(cache=spc, pdf='gamma', pdf_params=[1.0, 2.0], point_masses=[[0.3, 3.0]], theta=7.0, theta2=3.0, demo='demo1'))
+    fine1 = spec_cache('1d', 'neutral1', 1.0, [1, 2], (1e-4, 2000.0), 300 if not thorough else 500, [])
+    for name, params in [('gamma', [0.2, 1000.0]), ('lognormal', [2.0, 1.5]), ('exponential', [30.0]), ('gamma', [0.5, 10.0]), ('lognormal', [9.0, 1.0])]:
+        oracle(chk, dadi, 'nosel1d', dict(cache=fine1, pdf=name, params=params, theta=2.0, fine=True))
+    for ci in range(nL):
+        sp = rnd_spec(rng, '2d', 'demo2', extra=[r3(rng.uniform(0.5, 6)) for _ in range(int(rng.integers(1, 3)))])
+        spn = spec_cache('2d', 'neutral2', sp['p0'], sp['ns'], sp['bounds'], sp['n'], [])
+        for name, params in pdf2_specs(rng):
+            oracle(chk, dadi, 'int2d', dict(cache=sp, pdf=name, params=params, theta=rnd_theta(rng), exterior_int=True))
+            oracle(chk, dadi, 'int2d', dict(cache=sp, pdf=name, params=params, theta=rnd_theta(rng), exterior_int=False))
+            oracle(chk, dadi, 'nosel2d', dict(cache=spn, pdf=name, params=params, theta=rnd_theta(rng)))
+            ex = sp['extra']
+            pt = [r3(rng.uniform(0, 0.4)), float(rng.choice(ex)), r3(rng.uniform(0, 0.4)), float(rng.choice(ex + [7.77] if rng.random() < 0.1 else ex))]
+            rho = float(rng.choice([0.0, 1.0, r3(rng.uniform(-0.9, 0.9))]))
+            oracle(chk, dadi, 'pp2', dict(cache=sp, pdf=name, biv_params=params, point=pt, rho=rho, theta=rnd_theta(rng)))
+            if name == 'biv_lognormal':
+                oracle(chk, dadi, 'pp2', dict(cache=sp, pdf=name, biv_params=params, point=[pt[0], pt[1], pt[0], pt[1]], rho=params[-1],
+                                              theta=rnd_theta(rng), symmetric=True))
+    # selection-neutral spectra on the default-like grid: distributions inside and beyond the cached range
+    fine2 = spec_cache('2d', 'neutral2', 1.0, [1, 1], (1e-4, 2000.0), 60 if not thorough else 100, [])
+    for params in [[2.0, 1.5, 0.0], [5.0, 1.0, 0.5], [0.0, 0.5, 0.9], [8.0, 1.0, 0.5], [10.0, 1.5, 0.9], [8.0, 3.0, 7.0, 1.0, -0.5]]:
+        oracle(chk, dadi, 'nosel2d', dict(cache=fine2, pdf='biv_lognormal', params=params, theta=1.0, fine=True))
+    for params in [[0.5, 10.0], [2.0, 5.0], [3.0, 1000.0]]:
+        oracle(chk, dadi, 'nosel2d', dict(cache=fine2, pdf='biv_ind_gamma', params=params, theta=3.0, fine=True))
+    # mixtures
+    for rep in range(6 if not thorough else 30):
+        gp = r3(rng.uniform(0.5, 6)); gp2 = r3(rng.uniform(0.5, 6))
+        sp1 = rnd_spec(rng, '1d', 'demo1', extra=[gp])
+        sp2 = rnd_spec(rng, '2d', 'demo2', extra=[gp, gp2]); sp2['ns'] = sp1['ns']
+        shared = [r3(rng.uniform(-1, 4)), r3(rng.uniform(0.5, 2))]
+        rho = float(rng.choice([0.0, r3(rng.uniform(-0.9, 0.9))])); p2d = float(rng.choice([0.0, 1.0, r3(rng.uniform(0, 1))]))
+        base = dict(cache1=sp1, cache2=sp2, pdf1='lognormal', pdf2='biv_lognormal', shared=shared, rho=rho, p2d=p2d)
+        oracle(chk, dadi, 'mix', dict(base, kind='mix', theta=rnd_theta(rng)))
+        oracle(chk, dadi, 'mix', dict(base, kind='mixsym', theta=rnd_theta(rng), point=[r3(rng.uniform(0, 0.4)), gp]))
+        oracle(chk, dadi, 'mix', dict(base, kind='mixpt', theta=rnd_theta(rng), point=[r3(rng.uniform(0, 0.4)), gp, r3(rng.uniform(0, 0.4)), gp2]))
+        oracle(chk, dadi, 'vourlaki', dict(cache1=spec_cache('1d', 'demo1', sp1['p0'], sp1['ns'], sp1['bounds'], sp1['n'], []), cache2=sp2,
+                                           params=[r3(rng.uniform(0.3, 2)), r3(10 ** rng.uniform(0, 2)), r3(rng.uniform(0, 0.3)),
+                                                   gp if rng.random() < 0.9 else 9.99, r3(rng.uniform(0, 1)), r3(rng.uniform(0, 1))], theta=rnd_theta(rng)))
+    # the example of the documentation (doc/examples/DFE): mu, sigma, rho, ppos, gamma_pos, p2d
+    spd1 = spec_cache('1d', 'demo1', 1.0, [2, 2], (0.01, 50.0), 5, [1.2]); spd2 = spec_cache('2d', 'demo2', 1.0, [2, 2], (0.01, 50.0), 4, [1.2])
+    oracle(chk, dadi, 'mix', dict(cache1=spd1, cache2=spd2, pdf1='lognormal', pdf2='biv_lognormal', shared=[0.5, 0.3], rho=0.0, p2d=0.2,
+                                  kind='mixsym', theta=1.0, point=[0.2, 1.2]))
+    # caches: processes, faults, split + merge, subsets
+    cpus_l = [2, 3, 4] if not thorough else list(range(2, 17))
+    for cpus in cpus_l:
+        for dim in (1, 2):
+            n = int(rng.integers(1, 4)); extra = [2.5][:int(rng.integers(0, 2))]
+            oracle(chk, dadi, 'procs', dict(dim=dim, n=n, extra=extra, cpus=cpus))
+    for dim in (1, 2):
+        n, extra = 2, [2.5]
+        G = 3
+        cells = [(i, j) for i in range(G) for j in (range(G) if dim == 2 else [0])]
+        for at in cells:
+            for cpus in ([1, 2, 3] if not thorough else [1, 2, 3, 4, 8]):
+                if not thorough and cpus == 3 and (at[0] + at[1]) % 2: continue
+                oracle(chk, dadi, 'fault', dict(dim=dim, n=n, extra=extra, cpus=cpus, at=list(at)))
+    for rep in range(6 if not thorough else 30):
+        split = int(rng.integers(2, 7)); job = int(rng.integers(0, split))
+        oracle(chk, dadi, 'fault', dict(dim=2, n=2, extra=[2.5], cpus=int(rng.integers(1, 4)), at=[int(rng.integers(0, 3)), int(rng.integers(0, 3))],
+                                        split=split, job=job))
+    for split in range(1, 7):
+        for cpus in ([1, 2] if not thorough else [1, 2, 3, 4]):
+            n = int(rng.integers(1, 4)); extra = [2.5][:int(rng.integers(0, 2))]
+            oracle(chk, dadi, 'split', dict(n=n, extra=extra, split=split, cpus=cpus, order=[int(v) for v in rng.permutation(split)]))
+    for mult in itertools.product((0, 1, 2), repeat=4):
+        ids = [j for j in range(4) for _ in range(mult[j])]
+        order = [ids[i] for i in rng.permutation(len(ids))] if ids else []
+        oracle(chk, dadi, 'subsets', dict(mult=list(mult), order=[int(v) for v in order]))
+        dups = [i for i, j in enumerate(order) if order.index(j) != i]
+        if dups:
+            oracle(chk, dadi, 'subsets', dict(mult=list(mult), order=[int(v) for v in order], tamper=int(dups[int(rng.integers(0, len(dups)))])))
+    # compiled pdfs
+    for rep in range(25 if not thorough else 200):
+        npx = int(rng.integers(2, 9)); npy = int(rng.integers(2, 9))
+        xx = np.sort(10 ** rng.uniform(-4, 3.5, size=npx)).tolist(); yy = np.sort(10 ** rng.uniform(-4, 3.5, size=npy)).tolist()
+        rho = float(rng.choice([0.0, rng.uniform(-0.999, 0.999), 0.99, -0.99]))
+        pl = [[rng.uniform(-3, 8), rng.uniform(0.1, 4), rho], [rng.uniform(-3, 8), rng.uniform(-3, 8), rng.uniform(0.1, 4), rng.uniform(0.1, 4), rho]]
+        pg = [[10 ** rng.uniform(-1.5, 1.3), 10 ** rng.uniform(-1, 4)], [10 ** rng.uniform(-1.5, 1.3), 10 ** rng.uniform(-1, 4), 0.3],
+              [10 ** rng.uniform(-1.5, 1.3), 10 ** rng.uniform(-1.5, 1.3), 10 ** rng.uniform(-1, 4), 10 ** rng.uniform(-1, 4)],
+              [10 ** rng.uniform(-1.5, 1.3), 10 ** rng.uniform(-1.5, 1.3), 10 ** rng.uniform(-1, 4), 10 ** rng.uniform(-1, 4), -0.2]]
+        layout = ['contiguous', 'contiguous', 'strided', 'reversed', 'list', 'scalar', 'int'][rep % 7]
+        oracle(chk, dadi, 'pdf', dict(pdf='biv_lognormal', params=[float(v) for v in pl[rep % 2]], xx=xx, yy=yy, layout=layout))
+        oracle(chk, dadi, 'pdf', dict(pdf='biv_ind_gamma', params=[float(v) for v in pg[rep % 4]], xx=xx, yy=yy, layout=layout))
+
+def replay(chk, ctx, data):
+    inp = data.get('input') or {}
+    name = inp.get('oracle')
+    if name in ORACLES:
+        oracle(chk, ctx['dadi'], name, {k: v for k, v in inp.items() if k not in ('oracle', 'got', 'expected', 'contributions', 'stored',
+                                                                                    'total_weight', 'total_weight_impl')})
+    else:
+        chk.notes.append('replay: no oracle named in the replay file')
